@@ -66,5 +66,22 @@ RECURSIVE ClosureAvoid(_, _, _)
 ClosureAvoid(w, S, avoid) == LET T == S \cup (({ Resolve(w, c, 8) : c \in UNION { ChildrenOf(w, d) : d \in S \ avoid } } \ {-1}))
                              IN IF T = S THEN S ELSE ClosureAvoid(w, T, avoid)
 
+(* Depth windows while following links.  A directory may be reached along several routes; DirLevels gives, for every real    *)
+(* directory, the levels (root = 0, bounded by K) at which some route enters it - a sub-directory one level below its       *)
+(* parent, a link's target at the level of the link.  An entry can be listed at one more than a level of its directory.   *)
+RECURSIVE DirLevelsFrom(_, _, _, _)
+DirLevelsFrom(w, S, k, K) ==          \* S: the directories entered at level k
+  IF k > K \/ S = {} THEN {}
+  ELSE { <<d, k>> : d \in S } \cup DirLevelsFrom(w, { Resolve(w, c, 8) : c \in UNION { ChildrenOf(w, d) : d \in S } } \ {-1}, k + 1, K)
+DirLevels(w, root, K) == DirLevelsFrom(w, {root}, 0, K)
+WalkLevels(w, root, n, K) == { p[2] + 1 : p \in { q \in DirLevels(w, root, K) : q[1] = w.nodes[n].parent } }
+(* The level of an entry is its nesting level below the root along the way the search came - also behind a link, wherever *)
+(* the target really lies.  A directory is searched once per query, by whichever route reaches it first, so an entry that  *)
+(* several routes reach at different levels is due only when every one of them puts it inside the window, and admissible   *)
+(* when some does.                                                                                                         *)
+CandidateLevels(w, root, n, K) == WalkLevels(w, root, n, K)
+DueInWindow(w, root, n, min, max, K) == LET c == CandidateLevels(w, root, n, K) IN c # {} /\ (\A L \in c : InWindow(L, min, max)) /\ (\A L \in c : L < K)
+AdmissibleInWindow(w, root, n, min, max, K) == \E L \in CandidateLevels(w, root, n, K) : InWindow(L, min, max)
+
 Disjoint(w, r1, r2) == r1 # r2 /\ ~Below(w, r1, r2) /\ ~Below(w, r2, r1) /\ r1 # 0 /\ r2 # 0
 =============================================================================
